@@ -1,5 +1,6 @@
 import Orb.Proto
 import Orb.Clip
+import Orb.ClipOptions
 
 /-! Driver for C07 (line clipping) — shared clip glue is reused by C08. -/
 namespace Driver.C07
@@ -136,6 +137,31 @@ def specPieces (box : Bound Q) (isOpen : Bool) (inp : List (Pt Q)) : List (List 
     | _ => if cur.isEmpty then acc else acc ++ [cur]
   go inp [] []
 
+/-- on the boundary of the box, exactly (some coordinate IS an edge value) -/
+def onBoundary (box : Bound Q) (p : Pt Q) : Bool :=
+  p.x == box.lo.x || p.x == box.hi.x || p.y == box.lo.y || p.y == box.hi.y
+
+/-! ### provenance of the output vertices: COPIES and COMPUTED points
+
+  `clip.line` pushes, for an accepted segment, its two ends `a`, `b` as they are after the inner loop.
+  An end is either still the input vertex (`in[i-1]`, `in[i]`: never touched because its region code was 0,
+  or — open bound — the far end that is a vertex on the boundary) — a COPY, bit-identical to an input
+  vertex, no arithmetic — or it was replaced by `intersect` (which sets one coordinate to the edge value
+  itself, the other one is computed: three roundings) and possibly `clampToBound` (which sets coordinates
+  to edge values) — a COMPUTED point, with at least one coordinate that IS an edge value of the box.
+  Exact consequences, judged with no tolerance whatever the arithmetic did:
+
+  * every output vertex is in the closed box (a copy was compared with the edges as it is; a computed
+    point is re-coded with the closed `bitCode` and clipped again or snapped until its code is 0);
+  * every output vertex is an input vertex or lies on the boundary of the box (`onBoundary`);
+  * every input vertex of a line of two or more vertices that lies in the closed box (closed bound) /
+    strictly inside the box (open bound) comes back, bit for bit: with region code 0 the segment that
+    ends there and the segment that starts there cannot be rejected (`codeA & codeB = 0`) and the loop
+    ends in the accepting branch (at most two clips and a snap per end), which pushes it.
+
+  The tolerance `tolOf` of the rounding-affected branch therefore only ever excuses the COMPUTED coordinate
+  of a computed point. -/
+
 def parseMls (ts : Toks) : Option (List (List (Pt UInt64)) × Toks) := ptss ts
 
 /-! ### tolerance of the rounding-affected branch
@@ -183,6 +209,36 @@ def dedupTol (tol : Q) (ps : List (Pt Q)) : List (Pt Q) :=
 def normPiecesTol (tol : Q) (l : List (List (Pt Q))) : List (List (Pt Q)) :=
   l.map fun p => dropCollinearApprox (dedupTol tol p)
 
+/-- squared distance from `q` to the segment `a b`, exact -/
+def ptSegDist2 (a b q : Pt Q) : Q :=
+  let dx := b.x - a.x; let dy := b.y - a.y
+  let l2 := dx * dx + dy * dy
+  if l2 == 0 then (q.x - a.x) * (q.x - a.x) + (q.y - a.y) * (q.y - a.y) else
+  let t := ((q.x - a.x) * dx + (q.y - a.y) * dy) / l2
+  let t := if t < 0 then 0 else if t > 1 then 1 else t
+  let px := a.x + t * dx; let py := a.y + t * dy
+  (q.x - px) * (q.x - px) + (q.y - py) * (q.y - py)
+
+def nearPolyline (d2 : Q) (poly : List (Pt Q)) (v : Pt Q) : Bool :=
+  match poly with
+  | [] => false
+  | [p] => ptSegDist2 p p v ≤ d2
+  | _ => (poly.zip (poly.drop 1)).any fun (a, b) => ptSegDist2 a b v ≤ d2
+
+/-- two pieces are the same polyline up to `4·tol`: same end points (within `4·tol` per coordinate) and every
+    vertex of each within distance `4·tol` of the other polyline.  The vertex-by-vertex comparison of the
+    normalised pieces is brittle exactly AT its thresholds — two points `tol` apart (merged on one side, kept
+    on the other), an interior vertex whose turn has sin² within rounding of 1e-18 (dropped on one side only):
+    near-miss vertices sit there.  `dedupTol` moves a point by at most `tol`, `dropCollinearApprox` removes a
+    vertex at most `1e-9 · (segment length) ≤ 3·tol` off the chord, so two normalisations of the same
+    polyline pass this test; it compares the pieces as point sets, which is what the property speaks of. -/
+def pieceNear (tol : Q) (p q : List (Pt Q)) : Bool :=
+  match p.head?, q.head?, p.getLast?, q.getLast? with
+  | some a, some b, some c, some d =>
+    nearPt (4 * tol) a b && nearPt (4 * tol) c d &&
+    p.all (nearPolyline (16 * tol * tol) q) && q.all (nearPolyline (16 * tol * tol) p)
+  | _, _, _, _ => p.isEmpty && q.isEmpty
+
 /-- THE DOCUMENTED SITUATION of known finding C07-open-zero-length-touch, and nothing else: `p` lies on
     the boundary of the box, and some input segment whose two end points are BOTH outside the closed box
     meets the closed box in the single point `p` (it passes through a corner).  `tol = 0` when the float
@@ -207,7 +263,8 @@ def onlyOutsideTouchesExtra (box : Bound Q) (tol : Q) (inp : List (Pt Q))
 
 /-- the verdicts that known findings match: they may be given only when model and implementation agree -/
 def isKnownClass (s : String) : Bool :=
-  s == "propfail open-zero-length-touch" || s == "propfail missing-portion zero-length rounding-sensitive"
+  s == "propfail open-zero-length-touch" || s == "propfail missing-portion zero-length rounding-sensitive" ||
+  s == "propfail non-finite-output"
 
 /-- judgement of one `clip.LineString` result against the exact specification (no Float twin here) -/
 def judgeLine (b : Bound UInt64) (isOpen : Bool) (ps : List (Pt UInt64)) (mls : List (List (Pt UInt64))) : String :=
@@ -224,7 +281,10 @@ def judgeLine (b : Bound UInt64) (isOpen : Bool) (ps : List (Pt UInt64)) (mls : 
     let strip (l : List (List (Pt Q))) : List (List (Pt Q)) := l.filter fun p => p.length > 1
     let approxEq (x y : List (List (Pt Q))) : Bool :=
       x.length == y.length && (x.zip y).all fun (p, q) =>
-        p.length == q.length && (p.zip q).all fun (u, v) => nearPt tol u v
+        (p.length == q.length && (p.zip q).all fun (u, v) => nearPt tol u v) ||
+        -- same number of pieces, each the same polyline up to 4·tol (see `pieceNear`); a piece that
+        -- collapsed to a single point only matches a piece that did
+        ((p.length ≤ 1) == (q.length ≤ 1) && pieceNear tol p q)
     let judge (gotN : List (List (Pt Q))) (isExact : Bool) : String :=
       let spec := if isExact then spec else normPiecesTol tol spec
       let eqv (x y : List (List (Pt Q))) : Bool := if isExact then x == y else approxEq x y
@@ -239,6 +299,16 @@ def judgeLine (b : Bound UInt64) (isOpen : Bool) (ps : List (Pt UInt64)) (mls : 
             ++ (if isExact then "" else " approx"))
       else if isOpen && onlyOutsideTouchesExtra bq (if isExact then 0 else tol) pq eqv gotN spec then
         "propfail open-zero-length-touch"
+      -- OPEN bound, rounding-affected branch: result and specification agree on every piece that is longer
+      -- than the tolerance and differ only in pieces that collapse to a single point under it.  Whether such a
+      -- piece exists is decided 1e-15 away from the box (a vertex a few ulps off an edge or a corner: the
+      -- near-miss families), six orders of magnitude below the resolution `tol` of this branch: outside what
+      -- it can judge.  The case is NOT accepted on that ground: the verdict is `skip`, and `fin` turns it into
+      -- `diff` unless the Float twin reproduces the implementation bit for bit; the exact clauses above
+      -- (vertices in the box, provenance, inside vertices kept) have already been checked.  The closed bound
+      -- keeps its own label below (finding C07-corner-touch-rounding).
+      else if isOpen && !isExact && approxEq (strip gotN) (strip spec) then
+        "skip open-bound sub-tolerance-piece rounding-sensitive"
       else if isOpen && eqv (strip gotN) spec then
         "propfail spurious-zero-length-piece"
       else if !isExact && approxEq (strip gotN) (strip spec) then
@@ -246,6 +316,10 @@ def judgeLine (b : Bound UInt64) (isOpen : Bool) (ps : List (Pt UInt64)) (mls : 
       else if (strip gotN).length < (strip spec).length then "propfail missing-portion"
       else "propfail pieces-differ"
     if !(outq.all fun piece => piece.all (inClosed bq)) then "propfail vertex-outside-box" else
+    if !(outq.all fun piece => piece.all fun v => pq.contains v || onBoundary bq v) then
+      "propfail vertex-neither-input-nor-on-boundary" else
+    if pq.length ≥ 2 && !(pq.all fun v => !(if isOpen then strictlyInside bq v else inClosed bq v) || outq.any (·.contains v)) then
+      "propfail inside-vertex-missing" else
     if exact then judge (normPieces outq) true
     else
       (match mq with
@@ -257,6 +331,8 @@ def judgeLine (b : Bound UInt64) (isOpen : Bool) (ps : List (Pt UInt64)) (mls : 
          else if hasSteep pq then "skip steep-segment rounding-sensitive"
          -- … and the float result is judged with the tolerance `tol`
          else judge (normPiecesTol tol outq) false)
+  -- finite box and input, but a coordinate of the RESULT is NaN or infinite
+  | some _, some _, none => "propfail non-finite-output"
   | _, _, _ => "skip non-finite"
 
 /-- the implementation did not return within its time limit (outcome `hang`, observed by the harness's
@@ -266,15 +342,45 @@ def judgeLine (b : Bound UInt64) (isOpen : Bool) (ps : List (Pt UInt64)) (mls : 
     violation, never a known class. -/
 def hangVerdict : String := "propfail hang"
 
-/-- `line <open> <box> <pts> => <mls> <idem> <unmod>` (or `=> hang`) -/
+/-- an option list `<k> <b_1> … <b_k>` as the model's `List Opt` -/
+def optsP : P (List Orb.Clip.Opt) := fun ts => do
+  let (k, ts) ← nat ts
+  let (bs, ts) ← many nat k ts
+  pure (Orb.Clip.optsOfBools (bs.map (· == 1)), ts)
+
+/-- which spellings the explicit-list ops exercised -/
+def optsTag (opts : List Orb.Clip.Opt) : String :=
+  match opts with
+  | [] => " opts:none"
+  | [_] => " opts:one"
+  | _ =>
+    let ys := opts.map Orb.Clip.Opt.yes
+    if ys.all (· == ys.head!) then " opts:repeated" else
+    if ys.getLast? == some false then " opts:override-to-closed" else " opts:override-to-open"
+
+/-- the request of a case: its first token `req`; when an option list trails the input (`<k> <b_1> … <b_k>`,
+    the list that was really passed) the request is the MODEL's reading of that list, `applyOptions`
+    (last entry wins, none: closed bound), and `req` (the generator's reading) must agree with it -/
+def requestOf (req : Nat) (rest : Toks) : Option (Bool × String) :=
+  if rest.isEmpty then some (req == 1, "") else
+  match optsP rest with
+  | some (opts, []) =>
+    let r := Orb.Clip.applyOptions opts
+    if r == (req == 1) then some (r, optsTag opts) else none
+  | _ => none
+
+/-- `line <req> <box> <pts> [<k> <b_1> … <b_k>] => <mls> <idem> <unmod>` (or `=> hang`): the request is
+    given and the harness chose a spelling of it, or the spelling is given as well. -/
 def handleLine (inp out : Toks) : String :=
   match (do
     let (o, i) ← nat inp
     let (b, i) ← boundP i
-    let (ps, _) ← pts i
-    pure (o == 1, b, ps)) with
+    let (ps, rest) ← pts i
+    let (isOpen, tag) ← requestOf o rest
+    pure (isOpen, tag, b, ps)) with
   | none => "bad input"
-  | some (isOpen, b, ps) =>
+  | some (isOpen, tag, b, ps) =>
+    (fun (s : String) => if s.startsWith "ok" then s ++ tag else s) <|
     if out == ["panic"] then "propfail panic" else
     if out == ["hang"] then hangVerdict else
     match (do
@@ -298,7 +404,7 @@ def handleLine (inp out : Toks) : String :=
       if !idem then "propfail not-idempotent" else
       judgeLine b isOpen ps mls
 
-/-- `mls <open> <box> <k> <pts_1> … <pts_k> => <mls out> <unmod> <k> <mls_1> … <mls_k>`:
+/-- `mls <req> <box> <k> <pts_1> … <pts_k> [<n> <b_1> … <b_n>] => <mls out> <unmod> <k> <mls_1> … <mls_k>`:
     `out` = `clip.MultiLineString(box, members, OpenBound(open))`, `mls_i` = `clip.LineString` of member i
     with the same option (each member is also sent as a `line` case and judged there against the
     specification).  Judged here: bit-for-bit agreement with the Float twin `multiLineString`, and the
@@ -308,10 +414,12 @@ def handleMls (inp out : Toks) : String :=
   match (do
     let (o, i) ← nat inp
     let (b, i) ← boundP i
-    let (ms, _) ← ptss i
-    pure (o == 1, b, ms)) with
+    let (ms, rest) ← ptss i
+    let (isOpen, tag) ← requestOf o rest
+    pure (isOpen, tag, b, ms)) with
   | none => "bad input"
-  | some (isOpen, b, members) =>
+  | some (isOpen, tag, b, members) =>
+    (fun (s : String) => if s.startsWith "ok" then s ++ tag else s) <|
     if out == ["panic"] then "propfail panic" else
     if out == ["hang"] then hangVerdict else
     match (do
